@@ -136,14 +136,15 @@ def IntBoundary (xs xc : Char → Bool) (suffix rest : List Char) : Prop :=
   (suffix = [] → Stops isRotoDigit rest ∧
     (PlainStart rest ∨ ∃ c r, rest = '.' :: c :: r ∧ (xs c || c == '.' || c == '_') = true))
 
-theorem lexNumber_int (xs xc : Char → Bool) (d : Fin 10 × Nat) (ds : List (Fin 10 × Nat))
-    (suffix rest : List Char) (hs : suffix ∈ intSuffixes) (hx : ∀ c ∈ suffix, xc c = true)
-    (hb : IntBoundary xs xc suffix rest) :
+theorem lexNumber_digits (xs xc : Char → Bool) (d : Fin 10 × Nat) (ds : List (Fin 10 × Nat))
+    (suffix rest : List Char)
+    (hs : suffix = [] ∨ ∃ c tl, suffix = c :: tl ∧ (c = 'i' ∨ c = 'u' ∨ c = 'f'))
+    (hx : ∀ c ∈ suffix, xc c = true) (hb : IntBoundary xs xc suffix rest) :
     lexNumber xs xc (spellDigits (d :: ds) ++ (suffix ++ rest)) =
       some { isFloat := false, num := spellDigits (d :: ds), suffix := suffix, rest := rest } := by
   obtain ⟨hstop, hnosuf⟩ := hb
   have hdig : Stops isRotoDigit (suffix ++ rest) ∧ floatBlock xs (suffix ++ rest) = (false, [], suffix ++ rest) := by
-    rcases intSuffix_head suffix hs with h | ⟨c, tl, h, hc⟩
+    rcases hs with h | ⟨c, tl, h, hc⟩
     · subst h
       obtain ⟨h1, h2⟩ := hnosuf rfl
       refine ⟨by simpa using h1, ?_⟩
@@ -151,9 +152,9 @@ theorem lexNumber_int (xs xc : Char → Bool) (d : Fin 10 × Nat) (ds : List (Fi
       · simpa using floatBlock_plain xs rest h2
       · subst hr; simpa using floatBlock_brk xs c r hbrk
     · subst h
-      have hnd : isRotoDigit c = false := by rcases hc with h | h <;> subst h <;> decide
+      have hnd : isRotoDigit c = false := by rcases hc with h | h | h <;> subst h <;> decide
       have hp : PlainStart (c :: (tl ++ rest)) := by
-        rcases hc with h | h <;> subst h <;> exact ⟨by decide, by decide, by decide⟩
+        rcases hc with h | h | h <;> subst h <;> exact ⟨by decide, by decide, by decide⟩
       exact ⟨by simpa [Stops] using hnd, by simpa using floatBlock_plain xs _ hp⟩
   obtain ⟨hstopd, hfb⟩ := hdig
   have heat := eatWhile_all isRotoDigit (spellDigits (d :: ds)) (suffix ++ rest)
@@ -166,6 +167,76 @@ theorem lexNumber_int (xs xc : Char → Bool) (d : Fin 10 × Nat) (ds : List (Fi
     simp [spellDigits]
   rw [hcons, lexNumber_of_digit xs xc _ _ (isDigit_digitChar dd), ← hcons, heat]
   simp only [hfb, hsuf, List.append_nil]
+
+theorem lexNumber_int (xs xc : Char → Bool) (d : Fin 10 × Nat) (ds : List (Fin 10 × Nat))
+    (suffix rest : List Char) (hs : suffix ∈ intSuffixes) (hx : ∀ c ∈ suffix, xc c = true)
+    (hb : IntBoundary xs xc suffix rest) :
+    lexNumber xs xc (spellDigits (d :: ds) ++ (suffix ++ rest)) =
+      some { isFloat := false, num := spellDigits (d :: ds), suffix := suffix, rest := rest } := by
+  refine lexNumber_digits xs xc d ds suffix rest ?_ hx hb
+  rcases intSuffix_head suffix hs with h | ⟨c, tl, h, hc⟩
+  · exact Or.inl h
+  · exact Or.inr ⟨c, tl, h, by rcases hc with h | h <;> simp [h]⟩
+
+theorem digitChar_ne_dot : ∀ d : Fin 10, (digitChar d.val == '.') = false := by decide
+
+/-- the text does not start with an exponent letter -/
+def NoExpStart : List Char → Prop
+  | [] => True
+  | c :: _ => c ≠ 'e' ∧ c ≠ 'E'
+
+theorem floatExp_plain (b : Bool) (fl t : List Char) (h : NoExpStart t) : floatExp b fl t = (b, fl, t) := by
+  cases t with
+  | nil => rfl
+  | cons c t => obtain ⟨h1, h2⟩ := h; simp [floatExp, h1, h2]
+
+def floatSuffixes : List (List Char) := ["f32", "f64", ""].map String.toList
+
+theorem floatSuffix_head (suffix : List Char) (hs : suffix ∈ floatSuffixes) :
+    suffix = [] ∨ ∃ tl, suffix = 'f' :: tl := by
+  simp only [floatSuffixes, List.map_cons, List.map_nil, List.mem_cons, List.not_mem_nil, or_false] at hs
+  rcases hs with h | h | h <;> subst h
+  · right; exact ⟨_, rfl⟩
+  · right; exact ⟨_, rfl⟩
+  · left; rfl
+
+/-- What may follow a float literal `digits . digits suffix` for the token to
+    end there: not `XID_Continue` / `_`; without suffix also not a digit and not
+    an exponent letter. A `.` may follow: `2.0f64.pow(2.0)`, `2.5.abs()`. -/
+def FloatBoundary (xc : Char → Bool) (suffix rest : List Char) : Prop :=
+  Stops (fun c => xc c || c == '_') rest ∧ (suffix = [] → Stops isRotoDigit rest ∧ NoExpStart rest)
+
+theorem lexNumber_float_point (xs xc : Char → Bool) (d f : Fin 10 × Nat) (ds fs : List (Fin 10 × Nat))
+    (suffix rest : List Char) (hs : suffix ∈ floatSuffixes) (hx : ∀ c ∈ suffix, xc c = true)
+    (hxs : ∀ k : Fin 10, xs (digitChar k.val) = false) (hb : FloatBoundary xc suffix rest) :
+    lexNumber xs xc (spellDigits (d :: ds) ++ ('.' :: (spellDigits (f :: fs) ++ (suffix ++ rest)))) =
+      some { isFloat := true, num := spellDigits (d :: ds) ++ '.' :: spellDigits (f :: fs),
+             suffix := suffix, rest := rest } := by
+  obtain ⟨hstop, hnosuf⟩ := hb
+  have hsr : Stops isRotoDigit (suffix ++ rest) ∧ NoExpStart (suffix ++ rest) := by
+    rcases floatSuffix_head suffix hs with h | ⟨tl, h⟩
+    · subst h; simpa using hnosuf rfl
+    · subst h; exact ⟨by show isRotoDigit 'f' = false; decide, by decide, by decide⟩
+  have heat1 := eatWhile_all isRotoDigit (spellDigits (d :: ds)) ('.' :: (spellDigits (f :: fs) ++ (suffix ++ rest)))
+    (spellDigits_rotoDigits _) (by show isRotoDigit '.' = false; decide)
+  have heat2 := eatWhile_all isRotoDigit (spellDigits (f :: fs)) (suffix ++ rest) (spellDigits_rotoDigits _) hsr.1
+  have hsuf := eatWhile_all (fun c => xc c || c == '_') suffix rest (fun c hc => by simp [hx c hc]) hstop
+  have hfb : floatBlock xs ('.' :: (spellDigits (f :: fs) ++ (suffix ++ rest))) =
+      (true, '.' :: spellDigits (f :: fs), suffix ++ rest) := by
+    obtain ⟨ff, u⟩ := f
+    have hbrk : floatBrk xs ('.' :: (spellDigits ((ff, u) :: fs) ++ (suffix ++ rest))) = false := by
+      have h1 := digitChar_ne_underscore ff
+      have h2 : (digitChar ff.val == '.') = false := digitChar_ne_dot ff
+      simp only [spellDigits, List.cons_append, floatBrk, hxs ff, h2, Bool.or_false, Bool.false_or]
+      simpa using h1
+    simp only [floatBlock, hbrk, Bool.false_eq_true, if_false, floatFrac, heat2]
+    exact floatExp_plain _ _ _ hsr.2
+  obtain ⟨dd, u⟩ := d
+  have hcons : spellDigits ((dd, u) :: ds) ++ ('.' :: (spellDigits (f :: fs) ++ (suffix ++ rest))) =
+      digitChar dd.val :: ((List.replicate u '_' ++ spellDigits ds) ++ ('.' :: (spellDigits (f :: fs) ++ (suffix ++ rest)))) := by
+    simp [spellDigits]
+  rw [hcons, lexNumber_of_digit xs xc _ _ (isDigit_digitChar dd), ← hcons, heat1]
+  simp only [hfb, hsuf]
 
 end RotoV.Literal
 
